@@ -25,6 +25,13 @@ type ProgGen struct {
 	// SingleEntryHashes keeps hash literals to at most one entry, so that nothing
 	// depends on Go's map iteration order (needed by the differential checks).
 	SingleEntryHashes bool
+	// Inert makes all literal text and string literals of the generated templates
+	// free of characters that are significant in HTML (used by the auto-escape check:
+	// whatever significant character shows up in the output then comes from the data).
+	Inert bool
+	// IterVars names context variables that are iterable; in non-hostile mode loops
+	// run over these, array literals or ranges (so that programs get past their loops).
+	IterVars []string
 
 	seq    int
 	locals []string
@@ -38,6 +45,9 @@ type ProgGen struct {
 	used map[string]bool
 	// inChild is set while generating templates that take part in inheritance.
 	inChild bool
+	// parentOK is set while generating the direct body of a block that overrides an
+	// ancestor's block (parent() has something to find).
+	parentOK bool
 }
 
 func (g *ProgGen) freeBlockName() string {
@@ -83,11 +93,17 @@ func (g *ProgGen) pickS(xs []string) string { return xs[g.R.Intn(len(xs))] }
 
 var textChunks = []string{"a", " b ", "text\n", "<p>", "}", "%", "# ", "{ ", "é", "1", " ", "x}}y", "%}", "\t", "end", "中"}
 
+var inertChunks = []string{"a", " b ", "text\n", "1", "end", " ", "é", "[x]", "0:", "|"}
+
 func (g *ProgGen) text() *NText {
 	n := 1 + g.R.Intn(3)
 	s := ""
 	for i := 0; i < n; i++ {
-		s += g.pickS(textChunks)
+		if g.Inert {
+			s += g.pickS(inertChunks)
+		} else {
+			s += g.pickS(textChunks)
+		}
 	}
 	// never end in '{' (it could merge with a following delimiter)
 	if s[len(s)-1] == '{' {
@@ -134,7 +150,17 @@ func (g *ProgGen) Expr(depth int) Expr {
 	case 0, 1, 2:
 		ops := []string{"+", "-", "*", "/", "//", "%", "**", "~", "==", "!=", "<", "<=", ">", ">=", "and", "or", "in", "not in",
 			"starts with", "ends with", "matches", "b-and", "b-or", "b-xor"}
-		return &EBin{Op: g.pickS(ops), L: g.Expr(d), R: g.Expr(d)}
+		op := g.pickS(ops)
+		if !g.Hostile && op == "%" {
+			return &EBin{Op: op, L: g.Expr(d), R: &ENum{Text: strconv.Itoa(1 + r.Intn(5))}}
+		}
+		if !g.Hostile && (op == "in" || op == "not in") {
+			return &EBin{Op: op, L: g.Expr(d), R: g.iterable(d)}
+		}
+		if !g.Hostile && op == "matches" {
+			return &EBin{Op: op, L: g.Expr(d), R: &EStr{S: g.pickS([]string{"^a", "[0-9]", "b$"})}}
+		}
+		return &EBin{Op: op, L: g.Expr(d), R: g.Expr(d)}
 	case 3:
 		// ranges only over small literal bounds (spans above a million are outside the claim)
 		lo, hi := r.Intn(7)-2, r.Intn(9)-2
@@ -241,6 +267,9 @@ func (g *ProgGen) Expr(depth int) Expr {
 		if len(g.Tests) > 0 && (!g.Hostile || r.Intn(6) != 0) {
 			t = g.pickS(g.Tests)
 		}
+		if t == "notest" && !g.Hostile {
+			return g.Expr(d)
+		}
 		var args []Expr
 		if r.Intn(2) == 0 {
 			args = []Expr{g.Expr(0)}
@@ -270,6 +299,30 @@ func (g *ProgGen) Expr(depth int) Expr {
 		return g.Expr(0)
 	default:
 		return g.Expr(0)
+	}
+}
+
+// iterable returns an expression that can be iterated.
+func (g *ProgGen) iterable(d int) Expr {
+	r := g.R
+	switch r.Intn(4) {
+	case 0:
+		if len(g.IterVars) > 0 {
+			return &EName{Name: g.pickS(g.IterVars)}
+		}
+		fallthrough
+	case 1:
+		n := r.Intn(4)
+		els := make([]Expr, n)
+		for i := range els {
+			els[i] = g.Expr(d - 1)
+		}
+		return &EArr{Els: els}
+	case 2:
+		lo := r.Intn(3)
+		return &EGroup{X: &EBin{Op: "..", L: &ENum{Text: strconv.Itoa(lo)}, R: &ENum{Text: strconv.Itoa(lo + r.Intn(3))}}}
+	default:
+		return &EGroup{X: &EHash{Keys: []Expr{&EStr{S: "k"}}, Vals: []Expr{g.Expr(d - 1)}}}
 	}
 }
 
@@ -347,6 +400,9 @@ func (g *ProgGen) node(depth int, aux []string, inBlock bool) Node {
 		if r.Intn(3) == 0 {
 			n.Seq = &EName{Name: g.name()}
 		}
+		if !g.Hostile && r.Intn(10) != 0 {
+			n.Seq = g.iterable(1)
+		}
 		saved := g.locals
 		g.locals = append(append([]string{}, g.locals...), n.Val)
 		if !g.SingleEntryHashes {
@@ -391,6 +447,10 @@ func (g *ProgGen) node(depth int, aux []string, inBlock bool) Node {
 			if len(g.Filters) > 0 && (!g.Hostile || r.Intn(8) != 0) {
 				f = g.pickS(g.Filters)
 			}
+			if g.Inert {
+				// a filter section writes the filter's result as is: only filters that add no characters
+				f = g.pickS([]string{"upper", "lower", "trim", "title", "capitalize"})
+			}
 			n.Filters = append(n.Filters, f)
 		}
 		n.Body = g.body(depth, aux, inBlock)
@@ -403,7 +463,10 @@ func (g *ProgGen) node(depth int, aux []string, inBlock bool) Node {
 		g.used[name] = true
 		b := &NBlock{Name: name, ID: g.id("B")}
 		g.open = append(g.open, name)
+		savedPOK := g.parentOK
+		g.parentOK = false
 		b.Body = g.body(depth, aux, true)
+		g.parentOK = savedPOK
 		g.open = g.open[:len(g.open)-1]
 		g.blocks = append(g.blocks, b.Name) // block() may refer to it once it is closed
 		return b
@@ -425,6 +488,7 @@ func (g *ProgGen) node(depth int, aux []string, inBlock bool) Node {
 			return g.text()
 		}
 		n := &NEmbed{Tpl: &EStr{S: g.pickS(aux)}, ID: g.id("E")}
+		embedHasBlocks := n.Tpl.(*EStr).S == "layout"
 		if r.Intn(3) == 0 {
 			n.With = &EHash{Keys: []Expr{&EName{Name: "w"}}, Vals: []Expr{g.Expr(1)}}
 		}
@@ -434,22 +498,28 @@ func (g *ProgGen) node(depth int, aux []string, inBlock bool) Node {
 			b := &NBlock{Name: []string{"b0", "b1"}[i], ID: g.id("B")}
 			savedOpen, savedUsed, savedBlocks := g.open, g.used, g.blocks
 			g.open, g.used, g.blocks = []string{b.Name}, map[string]bool{"b0": true, "b1": true, "b2": true, "b3": true, "b4": true, "b5": true}, nil
+			savedPOK := g.parentOK
+			g.parentOK = embedHasBlocks
 			b.Body = g.body(depth, nil, true)
+			g.parentOK = savedPOK
 			g.open, g.used, g.blocks = savedOpen, savedUsed, savedBlocks
-			if r.Intn(3) == 0 {
+			if r.Intn(3) == 0 && (g.Hostile || embedHasBlocks) {
 				b.Body = append(b.Body, &NPrint{X: &EParent{}, ID: g.id("P")})
 			}
 			n.Blocks = append(n.Blocks, b)
 		}
 		return n
 	case 19:
-		if inBlock {
+		if inBlock && (g.Hostile || g.parentOK) {
 			return &NPrint{X: &EParent{}, ID: g.id("P")}
 		}
 		return g.text()
 	case 20:
 		return &NDo{X: g.Expr(1 + r.Intn(2)), ID: g.id("D")}
 	case 21:
+		if g.Inert {
+			return &NVerbatim{S: g.pickS([]string{"{{ raw }}", " {% if x %}y{% endif %} ", "{# c #}", "plain", "{%", ""})}
+		}
 		return &NVerbatim{S: g.pickS([]string{"{{ raw }}", " {% if x %}y{% endif %} ", "{# c #}", "plain", "{{ 'x", "{%", ""})}
 	case 22:
 		if len(aux) == 0 {
@@ -458,6 +528,9 @@ func (g *ProgGen) node(depth int, aux []string, inBlock bool) Node {
 		if r.Intn(2) == 0 {
 			alias := g.id("m")
 			g.locals = append(g.locals, alias)
+			if !g.Hostile {
+				return &NImport{Tpl: &EStr{S: "macros"}, Alias: alias, ID: g.id("M")}
+			}
 			return &NImport{Tpl: &EStr{S: g.pickS(aux)}, Alias: alias, ID: g.id("M")}
 		}
 		nm := g.pickS([]string{"mac0", "mac1", "nomacro"})
@@ -468,9 +541,29 @@ func (g *ProgGen) node(depth int, aux []string, inBlock bool) Node {
 		if r.Intn(2) == 0 {
 			al = g.id("f")
 		}
+		if !g.Hostile {
+			return &NFrom{Tpl: &EStr{S: "macros"}, Names: [][2]string{{nm, al}}, ID: g.id("M")}
+		}
 		return &NFrom{Tpl: &EStr{S: g.pickS(aux)}, Names: [][2]string{{nm, al}}, ID: g.id("M")}
 	default:
 		// macro call through an import alias or a from-import made earlier
+		if !g.Hostile {
+			alias := ""
+			for _, l := range g.locals {
+				if len(l) > 1 && l[0] == 'm' && l[1] >= '0' && l[1] <= '9' {
+					alias = l
+				}
+			}
+			if alias == "" {
+				return g.text()
+			}
+			n := r.Intn(4)
+			args := make([]Expr, n)
+			for i := range args {
+				args[i] = g.Expr(1)
+			}
+			return &NPrint{X: &EMethod{X: &EName{Name: alias}, Name: g.pickS([]string{"mac0", "mac1"}), Args: args}, ID: g.id("P")}
+		}
 		n := r.Intn(4)
 		args := make([]Expr, n)
 		for i := range args {
@@ -597,7 +690,10 @@ func (g *ProgGen) namedBlock(name string, body func() []Node) *NBlock {
 	}
 	g.used[name] = true
 	g.open = append(g.open, name)
+	saved := g.parentOK
+	g.parentOK = g.inChild && len(g.open) == 1 && name != "b3" // b3 only exists in the root when b1 nests it
 	b := &NBlock{Name: name, Body: body(), ID: g.id("B")}
+	g.parentOK = saved
 	g.open = g.open[:len(g.open)-1]
 	return b
 }
@@ -635,7 +731,9 @@ func (g *ProgGen) childBody(parent string, aux []string) []Node {
 		default:
 			body = append(body, g.namedBlock(bn, func() []Node {
 				inner := g.Nodes(2, 1+r.Intn(2), aux, true)
-				inner = append(inner, &NPrint{X: &EParent{}, ID: g.id("P")})
+				if g.Hostile || bn != "b3" {
+					inner = append(inner, &NPrint{X: &EParent{}, ID: g.id("P")})
+				}
 				return append(inner, g.text())
 			}))
 		}
